@@ -1,9 +1,11 @@
 SPECIFICATION mcSpec
 CONSTANTS
   Funded <- mcFunded
+  Keyless <- mcKeyless
   Fresh <- mcFreshT
   Funder = "s0"
   InitialUnits <- mcInitialUnitsT
+  McOps <- ReducedOps
   Record = FALSE
   Weight = 1
   Depth = 0
